@@ -619,3 +619,77 @@ def alternatives(items):
 def is_end_assertion(items):
     items = list(items)
     return len(items) == 1 and items[0][0] is sc.AT and items[0][1] in (sc.AT_END, sc.AT_END_STRING)
+
+
+# ---------------------------------------------------------------------------
+# thorough tier: cross-check of the automata code against the interpreter's own re engine
+# (CPython's regex matcher applied to regex *sources*; no parso code runs)
+# ---------------------------------------------------------------------------
+RECORD = False
+REGISTRY = []
+
+_orig_compile_nfa = compile_nfa
+
+
+def compile_nfa(pattern, flags=0):       # noqa: F811
+    nfa = _orig_compile_nfa(pattern, flags)
+    if RECORD and len(REGISTRY) < 400:
+        REGISTRY.append((pattern, flags, nfa))
+    return nfa
+
+
+def nfa_accepts(nfa, s):
+    run = _Run(nfa)
+    S = run.initial()
+    for ch in s:
+        S = run.step(S, ch if isinstance(ch, int) else ord(ch))
+        if not S:
+            return False
+    return run.accepting(S)
+
+
+def crosscheck_all(seed=0, maxlen=3, samples=300):
+    """For every recorded pattern: the NFA and re.fullmatch agree on all strings up to ``maxlen`` over the
+    pattern's own alphabet partition and on ``samples`` random longer strings."""
+    import random
+    import re as _re
+    rnd = random.Random(seed)
+    n_strings = 0
+    seen = set()
+    for pattern, flags, nfa in REGISTRY:
+        key = (pattern, flags)
+        if key in seen:
+            continue
+        seen.add(key)
+        try:
+            rx_ = _re.compile(pattern, flags)
+        except Exception:
+            continue
+        ats = atoms([nfa])
+        if len(ats) > 14:
+            ats = sorted(rnd.sample(ats, 14))
+        is_bytes = isinstance(pattern, (bytes, bytearray))
+
+        def mk(cs):
+            return bytes(cs) if is_bytes else ''.join(map(chr, cs))
+        pool = [[]]
+        frontier = [[]]
+        for L in range(maxlen):
+            frontier = [w + [a] for w in frontier for a in ats]
+            pool += frontier
+            if len(pool) > 4000:
+                break
+        for _ in range(samples):
+            pool.append([rnd.choice(ats) for _ in range(rnd.randint(maxlen + 1, maxlen + 5))])
+        for w in pool:
+            s = mk(w)
+            want = rx_.fullmatch(s) is not None
+            # `$` in the NFA is \\Z: skip strings where the difference can show (trailing newline)
+            got = nfa_accepts(nfa, w)
+            n_strings += 1
+            if want != got:
+                if (not is_bytes and s.endswith('\n')) or (is_bytes and s.endswith(b'\n')):
+                    continue
+                raise AnalysisError('automata cross-check failed: pattern %r, string %r: re says %s, NFA says %s'
+                                    % (pattern, s, want, got))
+    return {'patterns': len(seen), 'strings': n_strings}
